@@ -303,6 +303,7 @@ func runRead(input []byte) (obs, class string) {
 	hashOK := bytes.Equal(hsh[:], t.Hash)
 	// write back and re-read
 	wrOK := true
+	var written []byte
 	func() {
 		defer func() {
 			if r := recover(); r != nil {
@@ -314,6 +315,7 @@ func runRead(input []byte) (obs, class string) {
 			wrOK = false
 			return
 		}
+		written = append([]byte{}, buf.Bytes()...)
 		t2, err := tor.ReadTorrent("", bytes.NewReader(buf.Bytes()))
 		if err != nil {
 			wrOK = false
@@ -349,7 +351,7 @@ func runRead(input []byte) (obs, class string) {
 	}
 	geo := fmt.Sprintf("{| g_name := %s; g_plen := %d; g_total := %d; g_files := %s; g_nhashes := %d; g_chunks := %d; g_npieces := %d |}",
 		cq.Bytes([]byte(t.Name)), t.Pieces.PieceSize(), t.Pieces.Length(), cq.List(files), len(t.PieceHashes), len(t.VerifInFlight()), t.Pieces.Num())
-	return fmt.Sprintf("(TObsOk %s %s (%d)%%Z %s %s %s %s %s)", cq.Bytes(t.Info), geo, t.CreationDate, cq.List(tiers), renderStrs(ul), renderStrs(hs), cq.Bool(hashOK), cq.Bool(wrOK)), "ok"
+	return fmt.Sprintf("(TObsOk %s %s (%d)%%Z %s %s %s %s %s %s)", cq.Bytes(t.Info), geo, t.CreationDate, cq.List(tiers), renderStrs(ul), renderStrs(hs), cq.Bool(hashOK), cq.Bool(wrOK), cq.Bytes(written)), "ok"
 }
 
 func sameTiers(a, b [][]string) bool {
@@ -450,7 +452,7 @@ func finish(cases []*tcase, out string) {
 			return
 		}
 		var sb strings.Builder
-		sb.WriteString("From Storrent Require Import Base.Bytes Base.Bencode Model.Wire Model.Torfile Check.WireCheck Check.TorfileCheck.\nOpen Scope N_scope.\n")
+		sb.WriteString("From Storrent Require Import Base.Bytes Base.Bencode Model.Wire Model.Torfile Model.TorWrite Check.WireCheck Check.TorfileCheck.\nOpen Scope N_scope.\n")
 		sb.WriteString("Definition cases : list tcase := [\n" + strings.Join(shard, ";\n") + "\n].\n")
 		sb.WriteString("Definition BC := Eval vm_compute in bad_corr13 cases.\nDefinition BM := Eval vm_compute in bad_monitor13 cases.\nPrint BC. Print BM.\n")
 		if len(shard) == 1 {
